@@ -2,7 +2,9 @@ package engineworld
 
 import (
 	"crypto/sha256"
+	"strconv"
 
+	iec "github.com/nspcc-dev/neofs-node/internal/ec"
 	"github.com/nspcc-dev/neofs-sdk-go/checksum"
 	cid "github.com/nspcc-dev/neofs-sdk-go/container/id"
 	"github.com/nspcc-dev/neofs-sdk-go/object"
@@ -112,4 +114,12 @@ func SplitIDFrom(label string) *object.SplitID {
 	h[6] = (h[6] & 0x0f) | 0x40 // version 4
 	h[8] = (h[8] & 0x3f) | 0x80 // RFC 4122 variant
 	return object.NewSplitIDFromV2(h[:16])
+}
+
+// ECPart builds an EC part object of parent (rule 0, part idx): its engine shard choice on Put is
+// driven by the parent's ID while reads address the part's own ID.
+func ECPart(id oid.ID, parent *object.Object, idx int, payload []byte) *object.Object {
+	return Build(ObjSpec{Cnr: parent.GetContainerID(), ID: id, Owner: parent.Owner(), Payload: payload, Type: object.TypeRegular,
+		Epoch: parent.CreationEpoch(), Parent: parent,
+		Attrs: [][2]string{{iec.AttributeRuleIdx, "0"}, {iec.AttributePartIdx, strconv.Itoa(idx)}}})
 }
